@@ -389,7 +389,7 @@ B("C16.enclose_tags", ["C16", "C10", "C09", "C04"], FTREE, "bounded_enclose_tags
   "FragmentTree::enclose_fragments / enclose_recursive / second_pass_enclose / enclose_deep_first / Fragment::as_css_tag / can_fit (real bodies)",
   "a tag inside a rectangle or circle adds its names to the innermost enclosing shape and is not rendered; inside no shape it stays text; "
   "malformed tags and other text are rendered once, unaffected; every fragment occurs exactly once in the forest (also with overlapping, non-nested shapes)",
-  "5 shapes (three boxes nested in each other, sibling box, circle) x 6 placements x 6 contents x 4 shape orders (precondition: shapes before texts, an enclosing shape before its content - the order endorse_to_fragment_spans produces) = 144 cases; "
+  "8 shapes (three boxes nested in each other, sibling box, circle, a circle nested in a box, a box nested in a circle) x 9 placements x 8 contents (tags, plain text, malformed tags, labels that start with a tag) x 4 shape orders = 288 cases; "
   "Kani: the recursive Vec<FragmentTree> with Strings did not finish in 900 s",
   timeout=600)
 
